@@ -11,31 +11,99 @@ import (
 	"verifharness/internal/out"
 )
 
-// ---- C13 (oracle only): --dry-run changes nothing; schema apply is all-or-nothing ----
+// ---- C13: --dry-run changes nothing; schema apply is all-or-nothing ----------
+// Both are compared with the extracted model (DryModel.v: migrate_apply,
+// apply_changes) and judged by an oracle on full logical dumps.
+
+type dryStep struct {
+	mode     string
+	n        int
+	dry      bool
+	baseline string
+	files    []tfile
+}
 
 type dryCase struct {
-	id       string
-	prepared int    // number of files applied for real before the dry run (0 = fresh database)
-	mode     string // tx-mode
-	baseline string
-	shape    []int
+	id    string
+	label string
+	steps []dryStep
 }
+
+func (s dryStep) tokens() []string {
+	bl := "-"
+	if s.baseline != "" {
+		bl = hexOf(s.baseline)
+	}
+	allow := "1"
+	if s.baseline != "" {
+		allow = "0"
+	}
+	d := "0"
+	if s.dry {
+		d = "1"
+	}
+	toks := []string{s.mode, fmt.Sprint(s.n), d, bl, allow, "1"}
+	// directory tokens as in the cli stage (without the leading step fields)
+	st := step{Mode: s.mode, N: s.n, Files: s.files}
+	return append(toks, st.tokens()[4:]...)
+}
+
+func hexOf(s string) string { return fmt.Sprintf("%x", s) }
 
 func genC13Dry(w *out.W, tier string, mu *sync.Mutex) []func() {
 	w.Exhaust = true
-	w.Rule = "exhaustive over: {fresh database, database with 1 file already applied, all files applied} x tx-mode {none,file,all} x {no baseline, --baseline 1} x shapes {[2,1],[1,2,1]} for `migrate apply --dry-run`; plus `schema apply` with plans that fail midway (unique index on duplicated rows after creating other tables; NOT NULL column without default on a populated table) in its default transaction mode, and `schema apply --dry-run`. Observation = full logical dump (sqlite_master + every row of every table, revision timestamps masked) before/after. Non-trivial = the command would have changed something without the flag / did fail midway"
+	w.Rule = "exhaustive over: directory shapes {[2,1],[1,2,1],[2,2]} x prepared target {fresh, first file applied, all applied, second statement of the first >=2-statement file failed under --tx-mode none (partial revision)} x tx-mode {none,file,all} x {plain, 'txmode none' directive on the last file, invalid directive on the last file, a failing statement in a pending file} x {no baseline, --baseline 1 (fresh only)} x count {all, 1 (plain only)} for `migrate apply --dry-run`, followed by a real apply; compared step by step with the model (exit status, existence of atlas_schema_revisions, journal, revision rows) and judged on full logical dumps before/after the dry run (sqlite_master + every row, revision timestamps masked). Plus `schema apply` with plans that fail midway x tx-mode {file (default), none} (+ one with foreign_keys on): the planned statements are read from --dry-run, replayed one by one with an independent client to find the failing position and the state after each prefix; the real command's final dump is located among those states and compared with the model. Non-trivial = the dry run had something to execute / the plan failed midway"
 	var fns []func()
 	id := 0
-	for _, sh := range [][]int{{2, 1}, {1, 2, 1}} {
-		for _, prepared := range []int{0, 1, len(sh)} {
+	shapes := [][]int{{2, 1}, {1, 2, 1}, {2, 2}}
+	for _, sh := range shapes {
+		base := shapeFiles(sh)
+		// prepared targets
+		type prep struct {
+			name  string
+			steps []dryStep
+		}
+		preps := []prep{{"fresh", nil},
+			{"one-applied", []dryStep{{mode: "file", n: 1, files: base}}},
+			{"all-applied", []dryStep{{mode: "file", files: base}}}}
+		for fi, f := range base {
+			if len(f.Stmts) >= 2 {
+				broken := cloneFiles(base)
+				broken[fi].Bad = 1
+				preps = append(preps, prep{"partial", []dryStep{{mode: "none", files: broken}}})
+				break
+			}
+		}
+		for _, pr := range preps {
 			for _, m := range []string{"none", "file", "all"} {
-				for _, bl := range []string{"", "1"} {
-					if bl != "" && prepared > 0 {
-						continue
-					}
+				type variant struct {
+					name     string
+					files    []tfile
+					baseline string
+					n        int
+				}
+				last := len(base) - 1
+				withDir := func(d string) []tfile { fs := cloneFiles(base); fs[last].Directive = d; return fs }
+				withBad := func() []tfile { fs := cloneFiles(base); fs[last].Bad = 0; return fs }
+				vars := []variant{{"plain", base, "", 0}, {"directive-none", withDir("none"), "", 0},
+					{"directive-bogus", withDir("bogus"), "", 0}, {"failing-statement", withBad(), "", 0}}
+				if m == "none" {
+					vars = append(vars, variant{"count-1", base, "", 1})
+				}
+				if pr.name == "fresh" {
+					vars = append(vars, variant{"baseline", base, "1", 0})
+				}
+				for _, v := range vars {
 					id++
-					c := dryCase{id: fmt.Sprintf("c13dry-%d", id), prepared: prepared, mode: m, baseline: bl, shape: sh}
-					fns = append(fns, func() { runDry(w, mu, c) })
+					c := dryCase{id: fmt.Sprintf("c13dry-%d", id), label: fmt.Sprintf("shape=%v target=%s mode=%s variant=%s", sh, pr.name, m, v.name)}
+					c.steps = append(c.steps, pr.steps...)
+					c.steps = append(c.steps, dryStep{mode: m, n: v.n, dry: true, baseline: v.baseline, files: v.files})
+					if v.name == "plain" || v.name == "count-1" || v.name == "baseline" {
+						// the real apply afterwards (the baseline one skips file 1)
+						c.steps = append(c.steps, dryStep{mode: m, files: base})
+					}
+					nontriv := pr.name != "all-applied"
+					fns = append(fns, func() { runDry(w, mu, c, nontriv) })
 				}
 			}
 		}
@@ -48,18 +116,13 @@ func genC13Dry(w *out.W, tier string, mu *sync.Mutex) []func() {
 	return fns
 }
 
-func runDry(w *out.W, mu *sync.Mutex, c dryCase) {
+func runDry(w *out.W, mu *sync.Mutex, c dryCase, nontriv bool) {
 	tmp, err := os.MkdirTemp("", "vdry")
 	if err != nil {
 		panic(err)
 	}
 	defer os.RemoveAll(tmp)
 	db := filepath.Join(tmp, "t.db")
-	files := shapeFiles(c.shape)
-	fm := map[string]string{}
-	for _, f := range files {
-		fm[f.name()] = f.content()
-	}
 	mdir := filepath.Join(tmp, "m")
 	fail := func(msg string) {
 		mu.Lock()
@@ -70,60 +133,94 @@ func runDry(w *out.W, mu *sync.Mutex, c dryCase) {
 		fail(err.Error())
 		return
 	}
-	if err := clirun.WriteDir(mdir, fm); err != nil {
-		fail(err.Error())
-		return
-	}
-	if c.prepared > 0 {
-		r := clirun.Run(tmp, nil, "migrate", "apply", fmt.Sprint(c.prepared), "--dir", "file://"+mdir, "--url", "sqlite://"+db, "--allow-dirty")
-		if r.Exit != 0 {
-			fail("prepare: " + r.Stderr)
+	toks := []string{"D", fmt.Sprint(len(c.steps))}
+	var lines []string
+	type viol struct{ cls, msg string }
+	var viols []viol
+	for i, s := range c.steps {
+		fm := map[string]string{}
+		for _, f := range s.files {
+			fm[f.name()] = f.content()
+		}
+		if err := clirun.WriteDir(mdir, fm); err != nil {
+			fail(err.Error())
 			return
 		}
+		args := []string{"migrate", "apply"}
+		if s.n > 0 {
+			args = append(args, fmt.Sprint(s.n))
+		}
+		args = append(args, "--dir", "file://"+mdir, "--url", "sqlite://"+db, "--tx-mode", s.mode)
+		if s.dry {
+			args = append(args, "--dry-run")
+		}
+		if s.baseline != "" {
+			args = append(args, "--baseline", s.baseline)
+		} else {
+			args = append(args, "--allow-dirty")
+		}
+		before, _ := clirun.Dump(db, false)
+		r := clirun.Run(tmp, nil, args...)
+		after, _ := clirun.Dump(db, false)
+		ex := "ok"
+		if r.Exit != 0 {
+			ex = "fail"
+		}
+		journal, revs, err := readState(db)
+		if err != nil {
+			fail(err.Error())
+			return
+		}
+		tbl := "0"
+		if clirun.TableExists(db, "atlas_schema_revisions") {
+			tbl = "1"
+		}
+		o := obs{Exit: ex, Journal: journal, Revs: revs}
+		js := make([]string, len(o.Journal))
+		for k, j := range o.Journal {
+			js[k] = fmt.Sprint(j)
+		}
+		toks = append(toks, s.tokens()...)
+		lines = append(lines, fmt.Sprintf("step%d exit=%s table=%s journal=[%s] revs=[%s]", i, ex, tbl, strings.Join(js, ","), strings.Join(o.Revs, " ")))
+		if !s.dry {
+			continue
+		}
+		desc := fmt.Sprintf("migrate apply --dry-run %s baseline=%q exit=%d", c.label, s.baseline, r.Exit)
+		if r.Exit != 0 {
+			viols = append(viols, viol{"dry-run-failed", desc + " stderr=" + r.Stderr})
+			continue
+		}
+		if before != after {
+			cls := "dry-run-changed-database"
+			d := diffLines(before, after)
+			onlyRevTable, hasRow := true, false
+			for _, l := range d {
+				if !strings.Contains(l, "atlas_schema_revisions") {
+					onlyRevTable = false
+				}
+				if strings.HasPrefix(l, "+row ") {
+					hasRow = true
+				}
+			}
+			hadTable := strings.Contains(before, "atlas_schema_revisions")
+			switch {
+			case onlyRevTable && !hasRow && !hadTable:
+				cls = "dry-run-creates-revisions-table"
+			case onlyRevTable && hasRow && s.baseline != "":
+				cls = "dry-run-writes-baseline"
+			}
+			viols = append(viols, viol{cls, desc + " diff=" + strings.Join(d, " ; ")})
+		}
 	}
-	before, _ := clirun.Dump(db, false)
-	args := []string{"migrate", "apply", "--dry-run", "--dir", "file://" + mdir, "--url", "sqlite://" + db, "--tx-mode", c.mode}
-	if c.baseline != "" {
-		args = append(args, "--baseline", c.baseline)
-	} else {
-		args = append(args, "--allow-dirty")
-	}
-	r := clirun.Run(tmp, nil, args...)
-	after, _ := clirun.Dump(db, false)
-	desc := fmt.Sprintf("migrate apply --dry-run shape=%v prepared=%d mode=%s baseline=%q exit=%d", c.shape, c.prepared, c.mode, c.baseline, r.Exit)
 	mu.Lock()
 	defer mu.Unlock()
-	w.ImplOnly(c.id, desc+" changed="+fmt.Sprint(before != after))
-	w.Count("dry:mode:" + c.mode)
-	if c.prepared < len(c.shape) {
-		w.NonTrivial(desc)
+	w.Case(c.id, strings.Join(toks, " "), lines)
+	w.Count("dry")
+	if nontriv {
+		w.NonTrivial(c.label)
 	}
-	if r.Exit != 0 {
-		w.Violation(c.id, "dry-run-failed", desc+" stderr="+r.Stderr)
-		return
-	}
-	if before != after {
-		cls := "dry-run-changed-database"
-		d := diffLines(before, after)
-		onlyRevTable := true
-		for _, l := range d {
-			if !strings.Contains(l, "atlas_schema_revisions") {
-				onlyRevTable = false
-			}
-		}
-		hasRow := false
-		for _, l := range d {
-			if strings.HasPrefix(l, "+row ") {
-				hasRow = true
-			}
-		}
-		switch {
-		case onlyRevTable && !hasRow && c.prepared == 0:
-			cls = "dry-run-creates-revisions-table"
-		case onlyRevTable && hasRow && c.baseline != "":
-			cls = "dry-run-writes-baseline"
-		}
-		w.Violation(c.id, cls, desc+" diff="+strings.Join(d, " ; "))
+	for _, v := range viols {
+		w.Violation(c.id, v.cls, v.msg)
 	}
 }
 
@@ -155,11 +252,13 @@ type saCase struct {
 	desired string   // desired schema (SQL)
 	dryRun  bool
 	mustErr bool
+	txMode  string // "" = default (file)
+	fk      bool   // open the target with foreign_keys on
 }
 
 func schemaApplyCases() []saCase {
 	dupSetup := []string{"CREATE TABLE t (a INTEGER, b INTEGER)", "INSERT INTO t VALUES (1,1)", "INSERT INTO t VALUES (1,2)"}
-	return []saCase{
+	base := []saCase{
 		{name: "unique-index-on-duplicates-after-new-table", setup: dupSetup,
 			desired: "CREATE TABLE a_first (x INTEGER);\nCREATE TABLE t (a INTEGER, b INTEGER);\nCREATE UNIQUE INDEX t_a ON t (a);\n", mustErr: true},
 		{name: "unique-index-on-duplicates-after-add-column", setup: dupSetup,
@@ -168,11 +267,52 @@ func schemaApplyCases() []saCase {
 			desired: "CREATE TABLE t (a INTEGER, b INTEGER);\nCREATE UNIQUE INDEX t_b_a ON t (a);\n", mustErr: true},
 		{name: "rebuild-with-not-null-on-nulls", setup: []string{"CREATE TABLE p (a INTEGER, b INTEGER)", "INSERT INTO p VALUES (1, NULL)", "CREATE TABLE q (x INTEGER)"},
 			desired: "CREATE TABLE p (a INTEGER, b INTEGER NOT NULL);\nCREATE TABLE q (x INTEGER, y INTEGER NULL);\nCREATE TABLE r (z INTEGER);\n", mustErr: true},
-		{name: "dry-run-of-a-valid-plan", setup: []string{"CREATE TABLE t (a INTEGER)", "INSERT INTO t VALUES (1)"},
-			desired: "CREATE TABLE t (a INTEGER, b INTEGER NULL);\nCREATE TABLE u (x INTEGER);\n", dryRun: true},
-		{name: "dry-run-of-a-failing-plan", setup: dupSetup,
-			desired: "CREATE TABLE a_first (x INTEGER);\nCREATE TABLE t (a INTEGER, b INTEGER);\nCREATE UNIQUE INDEX t_a ON t (a);\n", dryRun: true},
+		{name: "valid-plan", setup: []string{"CREATE TABLE t (a INTEGER)", "INSERT INTO t VALUES (1)"},
+			desired: "CREATE TABLE t (a INTEGER, b INTEGER NULL);\nCREATE TABLE u (x INTEGER);\n"},
 	}
+	var cs []saCase
+	for _, c := range base {
+		for _, m := range []string{"", "file", "none"} {
+			c2 := c
+			c2.txMode = m
+			cs = append(cs, c2)
+		}
+	}
+	fkc := base[0]
+	fkc.fk = true
+	cs = append(cs, fkc)
+	cs = append(cs,
+		saCase{name: "dry-run-of-a-valid-plan", setup: []string{"CREATE TABLE t (a INTEGER)", "INSERT INTO t VALUES (1)"},
+			desired: "CREATE TABLE t (a INTEGER, b INTEGER NULL);\nCREATE TABLE u (x INTEGER);\n", dryRun: true},
+		saCase{name: "dry-run-of-a-failing-plan", setup: dupSetup,
+			desired: "CREATE TABLE a_first (x INTEGER);\nCREATE TABLE t (a INTEGER, b INTEGER);\nCREATE UNIQUE INDEX t_a ON t (a);\n", dryRun: true})
+	return cs
+}
+
+// planStatements extracts the SQL statements `schema apply --dry-run` prints.
+func planStatements(out string) []string {
+	var stmts []string
+	var cur []string
+	for _, l := range strings.Split(out, "\n") {
+		t := strings.TrimSpace(l)
+		if t == "" || strings.HasPrefix(t, "--") {
+			continue
+		}
+		cur = append(cur, l)
+		if strings.HasSuffix(t, ";") {
+			stmts = append(stmts, strings.Join(cur, "\n"))
+			cur = nil
+		}
+	}
+	return stmts
+}
+
+func copyFile(dst, src string) error {
+	b, err := os.ReadFile(src)
+	if err != nil {
+		return err
+	}
+	return os.WriteFile(dst, b, 0o644)
 }
 
 func runSchemaApply(w *out.W, mu *sync.Mutex, id string, c saCase) {
@@ -195,32 +335,115 @@ func runSchemaApply(w *out.W, mu *sync.Mutex, id string, c saCase) {
 		fail(err.Error())
 		return
 	}
+	url := "sqlite://" + db
+	if c.fk {
+		url += "?_fk=1"
+	}
 	before, _ := clirun.Dump(db, false)
-	args := []string{"schema", "apply", "--url", "sqlite://" + db, "--to", "file://" + filepath.Join(tmp, "schema.sql"), "--dev-url", "sqlite://dev?mode=memory"}
+	common := []string{"schema", "apply", "--url", url, "--to", "file://" + filepath.Join(tmp, "schema.sql"), "--dev-url", "sqlite://dev?mode=memory"}
+	// the plan, as the command itself prints it
+	pr := clirun.Run(tmp, nil, append(append([]string{}, common...), "--dry-run")...)
+	afterDry, _ := clirun.Dump(db, false)
 	if c.dryRun {
-		args = append(args, "--dry-run")
+		desc := fmt.Sprintf("schema apply case=%s dry-run=true exit=%d", c.name, pr.Exit)
+		mu.Lock()
+		defer mu.Unlock()
+		w.ImplOnly(id, desc+" changed="+fmt.Sprint(before != afterDry))
+		w.Count("schema-apply-dry-run")
+		w.NonTrivial(desc)
+		if before != afterDry {
+			w.Violation(id, "schema-apply-dry-run-changed-database", desc+" diff="+strings.Join(diffLines(before, afterDry), " ; ")+" stderr="+pr.Stderr)
+		}
+		return
+	}
+	stmts := planStatements(pr.Stdout)
+	if pr.Exit != 0 || len(stmts) == 0 {
+		fail(fmt.Sprintf("cannot read the plan of %s: exit=%d stdout=%q stderr=%q", c.name, pr.Exit, pr.Stdout, pr.Stderr))
+		return
+	}
+	// replay the statements one by one with the independent client: failing
+	// position and the state after each prefix
+	replay := filepath.Join(tmp, "replay.db")
+	if err := copyFile(replay, db); err != nil {
+		fail(err.Error())
+		return
+	}
+	dumps := []string{before}
+	bad := -1
+	for i, st := range stmts {
+		if err := clirun.Exec(replay, st); err != nil {
+			bad = i
+			break
+		}
+		d, _ := clirun.Dump(replay, false)
+		dumps = append(dumps, d)
+	}
+	canon := func(j int) int {
+		for k := 0; k <= j; k++ {
+			if dumps[k] == dumps[j] {
+				return k
+			}
+		}
+		return j
+	}
+	txm := c.txMode
+	args := append(append([]string{}, common...), "--auto-approve")
+	if txm != "" {
+		args = append(args, "--tx-mode", txm)
 	} else {
-		args = append(args, "--auto-approve")
+		txm = "file"
 	}
 	r := clirun.Run(tmp, nil, args...)
 	after, _ := clirun.Dump(db, false)
-	desc := fmt.Sprintf("schema apply case=%s dry-run=%v exit=%d", c.name, c.dryRun, r.Exit)
+	state := -1
+	for k := range dumps {
+		if dumps[k] == after {
+			state = k
+			break
+		}
+	}
+	ex := "ok"
+	if r.Exit != 0 {
+		ex = "fail"
+	}
+	// case line for the model: S txmode fk viol N bad canon_0 .. canon_N (canon of unreachable prefixes = themselves)
+	toks := []string{"S", txm, map[bool]string{false: "0", true: "1"}[c.fk], "0", fmt.Sprint(len(stmts))}
+	if bad >= 0 {
+		toks = append(toks, fmt.Sprint(bad))
+	} else {
+		toks = append(toks, "-")
+	}
+	for j := 0; j <= len(stmts); j++ {
+		if j < len(dumps) {
+			toks = append(toks, fmt.Sprint(canon(j)))
+		} else {
+			toks = append(toks, fmt.Sprint(j))
+		}
+	}
+	desc := fmt.Sprintf("schema apply case=%s tx-mode=%s fk=%v statements=%d failing=%d exit=%d state-after=prefix %d", c.name, txm, c.fk, len(stmts), bad, r.Exit, state)
 	mu.Lock()
 	defer mu.Unlock()
-	w.ImplOnly(id, desc+" changed="+fmt.Sprint(before != after))
-	w.Count("schema-apply")
-	if c.mustErr && r.Exit == 0 {
-		w.Violation(id, "schema-apply-setup", desc+": the plan was expected to fail midway but succeeded: "+r.Stdout)
+	w.Case(id, strings.Join(toks, " "), []string{fmt.Sprintf("exit=%s state=%d", ex, state)})
+	w.Count("schema-apply:" + txm)
+	if c.mustErr && (r.Exit == 0 || bad < 0) {
+		w.Violation(id, "schema-apply-setup", desc+": the plan was expected to fail midway but did not: "+r.Stdout)
 		return
 	}
-	if r.Exit != 0 || c.dryRun {
+	if bad >= 0 {
 		w.NonTrivial(desc)
-		if before != after {
-			cls := "schema-apply-not-atomic"
-			if c.dryRun {
-				cls = "schema-apply-dry-run-changed-database"
-			}
-			w.Violation(id, cls, desc+" diff="+strings.Join(diffLines(before, after), " ; ")+" stderr="+r.Stderr)
-		}
+	}
+	switch {
+	case state < 0:
+		w.Violation(id, "schema-apply-unknown-state", desc+": the final state is not the state after any prefix of the plan; diff to before="+strings.Join(diffLines(before, after), " ; ")+" stderr="+r.Stderr)
+	case bad >= 0 && r.Exit == 0:
+		w.Violation(id, "schema-apply-exit", desc+": statement fails in the replay but the command succeeded")
+	case bad < 0 && r.Exit != 0:
+		w.Violation(id, "schema-apply-exit", desc+": the command failed although every statement replays: stderr="+r.Stderr)
+	case bad >= 0 && txm != "none" && after != before:
+		w.Violation(id, "schema-apply-not-atomic", desc+" diff="+strings.Join(diffLines(before, after), " ; ")+" stderr="+r.Stderr)
+	case bad >= 0 && txm == "none" && after != dumps[bad]:
+		w.Violation(id, "schema-apply-none-prefix", desc+": expected exactly the successful prefix")
+	case bad < 0 && after != dumps[len(stmts)]:
+		w.Violation(id, "schema-apply-incomplete", desc+": the successful command did not apply the whole plan")
 	}
 }
